@@ -10,7 +10,7 @@ From Coq Require Import String List Bool Arith.
 From J5V.lib Require Import Outcome.
 From J5V.gen Require SetExtGen PanicGen.
 From J5V.model Require Import CmpbFields CmpbDecls.
-From J5V.proofs Require Import CmpbFieldsProofs CmpbPanicProofs CmpbDeclsProofs.
+From J5V.proofs Require Import CmpbFieldsProofs CmpbPanicProofs CmpbDeclsProofs CmpbSchemaProofs.
 Import ListNotations.
 Local Open Scope string_scope.
 
@@ -103,6 +103,15 @@ Theorem C07_enum_accepted : forall e, verdict_d (compile_enum e) = VOk.
 Proof. exact enum_accepted. Qed.
 Print Assumptions C07_enum_accepted.
 
+(* topics of every type with any number of messages, and the shells of objects (entity parts or not)
+   and oneofs, are accepted and link alone *)
+Theorem C07_topic_accepted : forall t, verdict_d (compile_topic t) = VOk.
+Proof. exact topic_accepted. Qed.
+Print Assumptions C07_topic_accepted.
+Theorem C07_object_shell_accepted : forall entity, verdict_d (compile_object_shell entity) = VOk.
+Proof. exact object_shell_accepted. Qed.
+Print Assumptions C07_object_shell_accepted.
+
 (* services: full statement *)
 Definition C07_service_full_statement : Prop :=
   forall sv, service_in_language sv = true -> verdict_d (compile_service sv) = VOk.
@@ -124,6 +133,22 @@ Theorem C07_service_accepted_partial : forall sv,
 Proof. exact service_accepted. Qed.
 Print Assumptions C07_service_accepted_partial.
 
+(* "all field types, all rules" is the code's list: the alternatives of j5.schema.v1.Field and the parts
+   each declares (regenerated from the schema descriptors) are exactly the field types and parameters
+   of the model (up to a reviewed list of parts the converter ignores), and each has a converter arm *)
+Theorem C07_schema_capabilities_agree :
+  forallb cap_matches SetExtGen.field_alternatives = true
+  /\ length SetExtGen.field_alternatives = length model_capabilities.
+Proof. exact schema_capabilities_agree. Qed.
+Print Assumptions C07_schema_capabilities_agree.
+Theorem C07_every_field_type_has_an_arm :
+  forallb (fun row => match row with (k, _, _, _, _, _) =>
+     if String.eqb k "array" || String.eqb k "map" then has_arm "buildProperty" (arm_label k)
+     else has_arm "buildField" (arm_label k) end) SetExtGen.field_alternatives = true
+  /\ length SetExtGen.field_switch_arms = length SetExtGen.field_alternatives + 2.
+Proof. exact every_field_type_has_an_arm. Qed.
+Print Assumptions C07_every_field_type_has_an_arm.
+
 (* every explicit panic( call in the anchored files is a model Panic site or a reviewed printer-side site *)
 Theorem C07_panic_sites_agree : panic_sites_same_set = true.
 Proof. exact panic_sites_agree. Qed.
@@ -131,7 +156,7 @@ Print Assumptions C07_panic_sites_agree.
 
 (* ---- non-vacuity: concrete members of the language exercising rules, list rules, wrappers *)
 Example C07_example :
-  let p := mkProp false (Array (Some (TInteger I64 (Some (mkIR true true (Some true) None)) true)) (Some true) true) true false in
+  let p := mkProp false (Array (Some (TInteger I64 (Some (mkIR true true (Some true) None false)) true)) (Some true) true) true false in
   in_language p = true /\ uses_float_rules p = false /\ uses_informal_key_listrules p = false
   /\ compile_iso p = mkObs VOk [IJ5Ext; IBufValidate; IJ5List] [XField; XValidate; XList]
                            (Some (mkDesc PInt64 NNone true false)).
